@@ -3,10 +3,11 @@ SPECIFICATION Spec
 CONSTANTS
   Threads = {1, 2}
   MaxOps = 3
-  Kinds = {"w", "c", "b"}
+  Kinds = {"w", "b", "bs"}
   ManualKs = TRUE
   ManualDb = TRUE
   PersistShortcut = FALSE
+  SyncBatchSyncs = TRUE
   MaxFaults = 0
   EnPersistCall = TRUE
   FixPoisonAppend = TRUE
